@@ -48,6 +48,12 @@ def module_text(g, i):
   lines.append('Pub(x) :- Priv(x);')
   for j in imports:
     lines.append('Pub(x + %d) :- In%d(x);' % (100 * (i + 1), j))
+  # a private predicate defined by multi-body aggregation and a private function used nested in itself: the same names
+  # exist in every module and in the main file
+  lines.append('Agg(s? += x) distinct :- Priv(x);')
+  lines.append('Agg(s? += 1) distinct :- Priv(x), x > 0;')
+  lines.append('Inc(x) = x + %d;' % (i + 1))
+  lines.append('Pub(Inc(Inc(s)) + 5000) :- Agg(s:);')
   return '\n'.join(lines) + '\n'
 
 
@@ -61,6 +67,10 @@ def main_text(g, extra=''):
     else:
       lines.append('import %s.Pub as P%d;' % (path, i)); names.append('P%d' % i)
   lines.append('Priv(1);')     # the main file has a private predicate of the same name
+  lines.append('Agg(s? += x) distinct :- Priv(x);')
+  lines.append('Agg(s? += 7) distinct :- Priv(x);')
+  lines.append('Inc(x) = x + 1000;')
+  lines.append('V(Inc(Inc(s))) :- Agg(s:);')
   lines.append('T(x) :- %s;' % ' | '.join('%s(x)' % nm for nm in names + ['Priv']))
   lines.append('U(x, y) :- %s(x), Priv(y);' % names[0])
   return '\n'.join(lines) + '\n' + extra
@@ -73,6 +83,14 @@ def flattened(g):
     rules += [R('M%d_Priv' % i, N(10 * (i + 1))), R('M%d_Priv' % i, N(10 * (i + 1) + 1)), R('M%d_Pub' % i, x, body=(Lit('M%d_Priv' % i, x),))]
     for a, j in g['edges']:
       if a == i: rules.append(R('M%d_Pub' % i, Bin('+', x, N(100 * (i + 1))), body=(Lit('M%d_Pub' % j, x),)))
+    s_ = V('s')
+    rules += [R('M%d_Agg' % i, named={'s': lang.Aggr('Sum', x)}, body=(Lit('M%d_Priv' % i, x),), distinct=True),
+              R('M%d_Agg' % i, named={'s': lang.Aggr('Sum', N(1))}, body=(Lit('M%d_Priv' % i, x), lang.Cmp('>', x, N(0))), distinct=True),
+              R('M%d_Inc' % i, x, value=Bin('+', x, N(i + 1))),
+              R('M%d_Pub' % i, Bin('+', lang.Call('M%d_Inc' % i, lang.Call('M%d_Inc' % i, s_)), N(5000)), body=(Lit('M%d_Agg' % i, s=s_),))]
+  s_ = V('s')
+  rules += [R('Agg', named={'s': lang.Aggr('Sum', x)}, body=(Lit('Priv', x),), distinct=True), R('Agg', named={'s': lang.Aggr('Sum', N(7))}, body=(Lit('Priv', x),), distinct=True),
+            R('Inc', x, value=Bin('+', x, N(1000))), R('V', lang.Call('Inc', lang.Call('Inc', s_)), body=(Lit('Agg', s=s_),))]
   rules.append(R('Priv', N(1)))
   names = ['M%d_Pub' % i for i in g['main']] + ['Priv']
   rules.append(R('T', x, body=(('or', tuple((Lit(nm, x),) for nm in names)),)))
@@ -120,7 +138,7 @@ def run_graph(g, tmp, stats, bad, states):
       states.add(tuple(sorted(set(r['head']['predicate_name'].rsplit('_', 1)[0] for r in parsed['rule'] if '_' in r['head']['predicate_name']))))
       # rows through the real pipeline
       u = impl.M('compiler.universe')
-      for pred in ('T', 'U'):
+      for pred in ('T', 'U', 'V'):
         try:
           prog = impl.quiet(u.LogicaProgram, parsed['rule'])
           impl.quiet(prog.FormattedPredicateSql, pred)
@@ -134,13 +152,13 @@ def run_graph(g, tmp, stats, bad, states):
         if got[0] != 'rows': bad('sql-error/%s' % mode.lower(), got[1], g, text); continue
         diff = compare.compare_rows(exp[0], exp[1], got[1], got[2])
         if diff: bad('differs-from-flattened-program/%s' % mode.lower(), '%s: %s' % (pred, diff), g, text)
-      # a file reachable along several paths is included once: every module contributes exactly its own rules
+      # a file reachable along several paths is included once: every module's private fact rules appear exactly twice (its two facts)
       heads = rule_heads(parsed)
-      exp_count = 1 + (len(g['main']) + 1) + 1 + sum(3 + sum(1 for a, j in g['edges'] if a == i) for i in range(g['n']))
       stats['comparisons'] += 1
-      nonann = [h for h in heads if not h.startswith('@')]
-      if len(nonann) != exp_count:
-        bad('rule-count/%s' % mode.lower(), 'parsed %d rules, flattened program has %d: %s' % (len(nonann), exp_count, nonann), g, text)
+      from collections import Counter as _C
+      hc = _C(h for h in heads if h.endswith('_Priv') or h == 'Priv')
+      if sorted(hc.values()) != sorted([2] * g['n'] + [1]):
+        bad('rule-count/%s' % mode.lower(), 'private fact rules per module: %s (expected two per module and one for main)' % dict(hc), g, text)
     if outs['PY'][0] == 'ok' and outs['CPP'][0] == 'ok':
       stats['comparisons'] += 1
       a = sorted(json.dumps(parsers.strip_heritage(r), sort_keys=True, default=str) for r in outs['PY'][2]['rule'])
